@@ -2,22 +2,33 @@
 from .. import common as C
 
 ID = "C13"
-SRC_FACTS = ["min_secret_len", "secret_placeholder", "arg_secrets_deep"]
+SRC_FACTS = ["min_secret_len", "secret_placeholder", "arg_secrets_deep", "redactors_closed_on_every_path"]
 RULE = ("run: for each (secrets, stream) family - overlapping, nested, prefix-related, adjacent, at line ends, with and "
         "without trailing newline, multi-line, below the length threshold, non-ASCII, confusable with the placeholder - "
         "ALL 2^(n-1) ways of cutting the stream into non-empty Write calls for streams up to 11 bytes (thorough: 14), "
         "plus chunkings with empty writes; random secrets/streams/chunkings over small alphabets up to 60 bytes "
-        "(thorough: 200); observable = bytes that reached the underlying writer after Close, or panic.  "
+        "(thorough: 200); `long`: unterminated and terminated lines of 2^k bytes, k = 12, 14, 16, 17 (thorough: 12..18), with "
+        "a secret starting at 2^k-8, -7, -6, -4, -1, +0, +1 (ending just before / at / after the boundary, straddling it, "
+        "starting just before / at / after it), written whole, cut inside the secret, and followed by a second line; "
+        "`long-clean`: lines of 2^k-1, 2^k, 2^k+1 bytes without any secret (and a near miss at the boundary); model and "
+        "implementation are compared on lines of EVERY length (linear-time twin of the model, C13_fast_run_is_run; the "
+        "first version stopped comparing at 40 000 bytes - the lines above that are labelled in the distribution); "
+        "observable = bytes that reached the underlying writer after Close, or panic.  Oracles on every `run` case "
+        "whatever its size: no line-local filtered secret forwarded; clean text unchanged; every written byte outside "
+        "every occurrence of every secret is forwarded, in order (`withheld`).  "
         "lib: the aho-corasick library alone (FindAll, IterOverlapping, ReplaceAllFunc) on random patterns/texts "
         "against its modelled match semantics, panics included.  cmd: the whole `esc run` cobra command against an "
         "in-memory service/file system/process runner: random opened environments (secret flags on variables, files, "
-        "nested objects and arrays), arguments with ${...} references (valid, missing, out of range), a command that "
+        "nested objects and arrays; secret and plain strings with double quotes, backslashes, brackets, control bytes, "
+        "DEL, non-ASCII and invalid UTF-8; keys with quotes, backslashes, spaces), arguments with ${...} references "
+        "(valid, missing, out of range) to scalars and to composites whose rendering quotes such strings, a command that "
         "prints its arguments and a script made of the environment's secret and plain strings, random chunk sizes, "
         "main output on stdout or stderr and a second script on the other stream, the command ending with exit 0 / an "
         "error after its output / a failure to start, last lines with and without newline (systematic `cmd-end` family: "
         "3 outcomes x 2 streams x 5 last lines x newline or not on each stream); observable = arguments the command "
-        "received + bytes esc forwarded on each stream + whether esc failed.  non-trivial = some filtered secret occurs in the "
-        "stream / some match exists; distinct by case content")
+        "received + bytes esc forwarded on each stream + whether esc failed.  Every scalar secret and every composite "
+        "secret with a 7-bit rendering is judged by the leak oracle in EVERY cmd case; non-trivial = some filtered secret "
+        "occurs in the stream / some match exists; distinct by case content")
 ASSUMPTIONS = ["the underlying writer does not fail (the error path of redactor.Write, which drops the current chunk "
                "and keeps the earlier partial line, is not modelled)",
                "stdout and stderr are filtered by two independent redactors sharing one replacer; the `cmd` cases write to "
@@ -25,11 +36,21 @@ ASSUMPTIONS = ["the underlying writer does not fail (the error path of redactor.
                "fails to start (exec.Run error, nothing written) - *exec.ExitError itself cannot be built by the fake runner",
                "the opened environment is what the service returns (esc.Environment); Secret flags are downward closed "
                "(a value inside a secret value is flagged secret - keeping that true is the evaluator's business, C03)",
-               "strconv.Quote (used by Value.ToString for members of arrays/objects) is modelled on printable ASCII without "
-               "double quote and backslash; `cmd` cases outside that class are run but not compared",
+               "strconv.Quote (used by Value.ToString for members of arrays/objects) is modelled on 7-bit strings (all "
+               "escapes: quote, backslash, \\a\\b\\f\\n\\r\\t\\v, \\xHH); on bytes >= 128 Go consults UTF-8 validity and "
+               "unicode.IsPrint, which is not modelled: `cmd` cases that quote such a string are run, their exit/ran flags "
+               "compared and EVERY exact secret text (all scalars, all 7-bit composites) judged by the leak oracle, but "
+               "argument texts and forwarded bytes are not compared with the model, and the clean-text / nothing-withheld "
+               "oracles are skipped when some secret composite has no exact text (counts in the distribution)",
                "the ${...} syntax itself (ast.Interpolate) is exercised with simple names and indices only",
-               "byte-level statement: secrets that contain neither '[' nor ']' and are not a piece of the placeholder "
-               "(an occurrence in the output could otherwise be made of placeholder text)"]
+               "LIMIT of the byte-level statement `the secret does not occur in the output` (theorems "
+               "C13_no_secret_survives_partial / C13_placeholder_clash_refuted / C13_placeholder_clash_exact_bounded): it is "
+               "false, without anything leaking, for a secret that can be spelled with placeholder text - one that lies "
+               "inside `[secret]`, contains `[secret]`, ends with a non-empty beginning of `[secret]` or begins with a "
+               "non-empty end of it (ph_clash; e.g. secret `sec` on input `sec` gives `[secret]`).  Brackets as such are not "
+               "excluded any more.  The oracle judges these secrets too: an occurrence counts when it lies between the "
+               "placeholder copies of the output (count of such secrets in the distribution); the flag-level theorems "
+               "(no byte of an occurrence forwarded, nothing else withheld) hold for every secret"]
 TRUSTED = ["the Aho-Corasick automaton construction is modelled by its match semantics (FindAll: earliest-ending "
            "occurrence starting at or after the search position, longest pattern first, next search from start+1; "
            "IterOverlapping: every occurrence by end, longest first); tied to the library by the `lib` cases of every run"]
@@ -112,10 +133,18 @@ REGRESSION = [
 
 # ---- `cmd` cases: the whole `esc run` command ---------------------------------------------------------------
 SECRET_POOL = [b"hunter2", b"s3cr3tA", b"tokXYZ", b"aaa", b"aaaa", b"abcd", b"bcde", b"pw", b"12345", b"nested99",
-               b"key=val", b"two words", b"x", b""]
+               b"key=val", b"two words", b"x", b"",
+               # strings that strconv.Quote rewrites when they sit inside a composite, and bracketed ones
+               b'pa"ss', b"back\\slash", b'q"\\"q', b"tab\there", b"del\x7fx", b"bell\x07", b"in\nner",
+               b"[bracket]", b"x[y", b"a]b", b"fe80::1]", b"[secret]", b"ecr",
+               # bytes >= 128 (valid UTF-8, invalid UTF-8): exact as scalars, outside the Quote model inside composites
+               b"caf\xc3\xa9!", b"\xff\xfe\xfd"]
 NEWLINE_SECRETS = [b"multi\nline", b"endnl\n", b"\nstart"]
-PLAIN_POOL = [b"plain", b"bob", b"value", b"aa", b"hunter", b"true", b"3.14", b"text with spaces", b""]
-KEYS = ["a", "b", "db", "list", "cfg", "tok", "user", "password", "k1", "k2", "PW", "PLAIN", "FILE", "N"]
+PLAIN_POOL = [b"plain", b"bob", b"value", b"aa", b"hunter", b"true", b"3.14", b"text with spaces", b"",
+              b'say "hi"', b"c:\\dir", b"[x]", b"\xc3\xa9t\xc3\xa9"]
+KEYS = ["a", "b", "db", "list", "cfg", "tok", "user", "password", "k1", "k2", "PW", "PLAIN", "FILE", "N",
+        # keys that Quote rewrites (never used in a ${...} path: only the enclosing object is referenced)
+        'we"ird', "k\\ey", "sp ace", "[k]", "k\u00e9"]
 
 
 def S(b, sec):
@@ -160,7 +189,9 @@ def all_paths(v, prefix, out):
             all_paths(x, prefix + [i], out)
     elif v["t"] == "obj":
         for k, x in v["v"]:
-            all_paths(x, prefix + [bytes.fromhex(k).decode()], out)
+            name = bytes.fromhex(k).decode()
+            if name.isascii() and name.replace("_", "a").isalnum():
+                all_paths(x, prefix + [name], out)
 
 
 def strings_of(v, out):
@@ -291,6 +322,34 @@ CMD_REGRESSION = [
 ]
 
 
+# a secret leaf inside a NON-secret object nested in the interpolated object (the audit's mutant: appendSecrets skipping
+# non-secret nested maps); the rendering of the outer object contains a non-empty composite, i.e. quotes inside quotes
+CMD_REGRESSION.append({"op": "cmd", "env": {"t": "obj", "s": False, "v": [[H(b"cfg"), {"t": "obj", "s": False, "v": [
+    [H(b"inner"), {"t": "obj", "s": False, "v": [[H(b"tok"), S(b"s3cr3tA", True)]]}], [H(b"user"), S(b"bob", False)]]}]]},
+    "cargs": [[{"text": H(b"cfg=")}, {"ref": ["cfg"]}]], "script": H(b"token s3cr3tA\n"), "sizes": [3], "stderr": False,
+    "fam": "cmd-regression"})
+# ... the same through an array, the leaf two composites down
+CMD_REGRESSION.append({"op": "cmd", "env": {"t": "obj", "s": False, "v": [[H(b"list"), {"t": "arr", "s": False, "v": [
+    {"t": "arr", "s": False, "v": [{"t": "obj", "s": False, "v": [[H(b"k1"), S(b"nested99", True)]]}]}, S(b"plain", False)]}]]},
+    "cargs": [[{"ref": ["list"]}]], "script": H(b"nested99"), "sizes": [5], "stderr": True, "fam": "cmd-regression"})
+# a secret composite whose members need escaping when quoted: the composite's text and each member are secrets
+CMD_REGRESSION.append({"op": "cmd", "env": {"t": "obj", "s": False, "v": [[H(b"list"), {"t": "arr", "s": True, "v": [
+    S(b'pa"ss', True), S(b"back\\slash", True), S(b"tab\there", True)]}]]},
+    "cargs": [[{"text": H(b"--list=")}, {"ref": ["list"]}]],
+    "script": H(b'pa"ss back\\slash tab\there\n"pa\\"ss","back\\\\slash","tab\\there" end'), "sizes": [4], "stderr": False,
+    "fam": "cmd-regression"})
+# bytes >= 128 inside a secret composite (outside the Quote model): the scalar members are judged all the same
+CMD_REGRESSION.append({"op": "cmd", "env": {"t": "obj", "s": False, "v": [[H(b"list"), {"t": "arr", "s": True, "v": [
+    S(b"caf\xc3\xa9!", True), S(b"\xff\xfe\xfd", True)]}]]},
+    "cargs": [[{"ref": ["list"]}]], "script": H(b"caf\xc3\xa9! and \xff\xfe\xfd"), "sizes": [2], "stderr": False,
+    "fam": "cmd-regression"})
+# bracketed secrets: a variable, a file, an interpolated one
+CMD_REGRESSION.append({"op": "cmd", "env": {"t": "obj", "s": False, "v": [
+    [H(b"environmentVariables"), {"t": "obj", "s": False, "v": [[H(b"PW"), S(b"[bracket]", True)]]}],
+    [H(b"files"), {"t": "obj", "s": False, "v": [[H(b"FILE"), S(b"fe80::1]", True)]]}],
+    [H(b"tok"), S(b"x[y", True)]]},
+    "cargs": [[{"ref": ["tok"]}]], "script": H(b"[bracket] x[bracket]y fe80::1] [x[y]\n[bracket"), "sizes": [3], "stderr": False,
+    "fam": "cmd-regression"})
 for _c in CMD_REGRESSION:
     _c.setdefault("script2", "")
     _c.setdefault("outcome", "ok")
@@ -302,7 +361,28 @@ CMD_REGRESSION.append({"op": "cmd", "env": {"t": "obj", "s": False, "v": [
 
 
 def _simple(b):
+    """the class of the first version of the model: Quote only adds the surrounding quotes"""
     return all(32 <= x <= 126 and x not in (34, 92) for x in b)
+
+
+def _ascii7(b):
+    return all(x < 128 for x in b)
+
+
+_ESC = {34: b'\\"', 92: b"\\\\", 7: b"\\a", 8: b"\\b", 12: b"\\f", 10: b"\\n", 13: b"\\r", 9: b"\\t", 11: b"\\v"}
+
+
+def _quote7(b):
+    """strconv.Quote on 7-bit input (only used for the distribution; the model is Model/RedactorCollect.v)"""
+    out = b'"'
+    for x in b:
+        if x in _ESC:
+            out += _ESC[x]
+        elif x < 32 or x == 127:
+            out += b"\\x%02x" % x
+        else:
+            out += bytes([x])
+    return out + b'"'
 
 
 def _to_string(v):
@@ -314,15 +394,24 @@ def _to_string(v):
     if t in ("num", "str"):
         return bytes.fromhex(v["v"])
     if t == "arr":
-        return b",".join(b'"' + _to_string(x) + b'"' for x in v["v"])
-    return b",".join(b'"' + k + b'"="' + x + b'"' for k, x in sorted((bytes.fromhex(k), _to_string(x)) for k, x in v["v"]))
+        return b",".join(_quote7(_to_string(x)) for x in v["v"])
+    return b",".join(_quote7(k) + b"=" + _quote7(x) for k, x in sorted((bytes.fromhex(k), _to_string(x)) for k, x in v["v"]))
 
 
-def _quotable(v):
+def _quotable(v, ok=_ascii7):
     if v["t"] == "arr":
-        return all(_quotable(x) and _simple(_to_string(x)) for x in v["v"])
+        return all(_quotable(x, ok) and ok(_to_string(x)) for x in v["v"])
     if v["t"] == "obj":
-        return all(_simple(bytes.fromhex(k)) and _quotable(x) and _simple(_to_string(x)) for k, x in v["v"])
+        return all(ok(bytes.fromhex(k)) and _quotable(x, ok) and ok(_to_string(x)) for k, x in v["v"])
+    return True
+
+
+def _secrets_exact(v):
+    """every secret node of v has an exact text in the model (scalars always, composites when 7-bit)"""
+    if v["t"] in ("arr", "obj"):
+        if v["s"] and not _quotable(v):
+            return False
+        return all(_secrets_exact(x) for x in (v["v"] if v["t"] == "arr" else [x for _, x in v["v"]]))
     return True
 
 
@@ -340,15 +429,28 @@ def _lookup(v, path):
     return v
 
 
-def cmd_in_model(c):
-    """is the case inside the modelled class of strconv.Quote? (only used to report the distribution)"""
+def _refs(c):
     for a in c["cargs"]:
         for p_ in a:
             if "ref" in p_:
                 v = _lookup(c["env"], p_["ref"])
-                if v is not None and not _quotable(v):
-                    return False
-    return True
+                if v is not None:
+                    yield v
+
+
+def cmd_in_model(c, ok=_ascii7):
+    """is the case inside the modelled class of strconv.Quote? (only used to report the distribution)"""
+    return all(_quotable(v, ok) for v in _refs(c))
+
+
+def cmd_secrets_exact(c):
+    return all(_secrets_exact(v) for v in _refs(c))
+
+
+def _clash(p):
+    """Model.Redactor.ph_clash for the distribution"""
+    return (p in PH or PH in p or any(p.endswith(PH[:k]) for k in range(1, len(PH) + 1))
+            or any(p.startswith(PH[-k:]) for k in range(1, len(PH) + 1)))
 
 
 def render_arg(parts):
@@ -410,27 +512,26 @@ def gen(rng, tier):
             stream += NL
         run(secrets, random_chunking(r2, stream), "random")
 
-    # ---- long unterminated lines: a secret near every power-of-two size up to 128 KiB (a buffer-size optimisation that
-    #      flushes or cuts an over-long line must not split an occurrence), written in one, two or three chunks
+    # ---- long lines: a secret at every offset 2^k-8 .. 2^k+1 of a line (a buffer-size optimisation that flushes, cuts or
+    #      truncates an over-long line must neither split an occurrence nor lose clean bytes), written whole, cut inside
+    #      the secret, and followed by a second line; model (linear-time twin) and oracles on every size
     r5 = rng.fork("long")
     sec = [b"hunter2", b"other-secret"]
-    # the model's cost grows faster than quadratically with the line length (0.2 s at 4 KiB, 22 s at 32 KiB, 150 s at
-    # 64 KiB), so the quick tier stops at 16 KiB and the thorough tier adds a few 32 KiB and 64 KiB lines
-    plan = [(4096, [0, 3, 5, 8], [0, 5], True), (16384, [3, 5], [5], False),
-            # above 40 000 bytes the model is not run (see Corr/C13.v): specification oracle only
-            (65536, [0, 3, 5, 8], [0, 5], True), (131072, [5], [5], False)]
-    if thorough:
-        plan += [(8192, [0, 1, 3, 5, 7, 9], [0, 1, 2, 5], True), (32768, [3, 5], [5], False),
-                 (65536, [1, 2, 4, 6, 7, 9], [1, 2], True), (262144, [3, 5], [5], False)]
-    for L, backs, fwds, split in plan:
-        for back in backs:
-            for fwd in fwds:
-                fill = L - 2 - len(sec[0]) + back
-                stream = b"x" * max(0, fill) + sec[0] + b"y" * fwd
-                run(sec, [stream, b"zzz tail"], "long")
-                if split:
-                    cut = max(1, fill + r5.below(len(sec[0]) + 1))
-                    run(sec, [stream[:cut], stream[cut:], b"tail\n"], "long")
+    ks = range(12, 19) if thorough else (12, 14, 16, 17)
+    for k in ks:
+        L = 1 << k
+        for d in (-8, -7, -6, -4, -1, 0, 1):
+            stream = b"x" * (L + d) + sec[0] + b"y" * 5
+            run(sec, [stream, b"zzz tail"], "long")
+            if d in (-4, 0) or thorough:
+                cut = L + d + 1 + r5.below(len(sec[0]) - 1)
+                run(sec, [stream[:cut], stream[cut:], b"tail\n"], "long")
+            if d == 0:
+                run(sec, [stream + b"\n" + b"z" * 100 + sec[1], b"\nlast " + sec[0]], "long")
+        # clean lines around the boundary: nothing may be changed or lost (no secret occurs in them)
+        for n in (L - 1, L, L + 1):
+            run(sec, [b"x" * n, b"\n"] if n == L else [b"x" * n], "long-clean")
+        run(sec, [b"x" * (L - 6) + b"hunter", b"3 other-secre", b"t\n" if k % 2 else b"t"], "long-clean")
 
     # ---- the library alone -----------------------------------------------------------------------------
     r3 = rng.fork("lib")
@@ -576,6 +677,9 @@ def describe(c):
     return d
 
 
+MODEL_CUTOFF_V1 = 40000      # the first version of Corr/C13.v did not compare streams above this size with the model
+
+
 def distribution(cases, r):
     d = {}
     for c, o in zip(cases, r["obs"]):
@@ -583,6 +687,9 @@ def distribution(cases, r):
         fam = "exhaustive" if fam.startswith("exh") and "+" not in fam else ("exhaustive+empty-writes" if fam.startswith("exh") else fam)
         if c["op"] == "run":
             res = "panic" if ("panic" in o or "crash" in o) else "out"
+            if fam.startswith("long"):
+                n = sum(len(x) // 2 for x in c["chunks"])
+                fam += "(>%d bytes: model compared since v2)" % MODEL_CUTOFF_V1 if n > MODEL_CUTOFF_V1 else "(<=%d bytes)" % MODEL_CUTOFF_V1
         elif c["op"] == "cmd":
             res = "child-" + c.get("outcome", "ok") if o.get("ran") and "panic" not in o and "crash" not in o else "not-run"
         else:
@@ -591,8 +698,22 @@ def distribution(cases, r):
         d[k] = d.get(k, 0) + 1
     d["nontrivial"] = len(r["nontrivial"])
     nt = set(r["nontrivial"])
-    d["cmd:nontrivial"] = sum(1 for i, c in enumerate(cases) if c["op"] == "cmd" and i in nt)
-    d["cmd:outside-modelled-quote-class(not compared)"] = sum(1 for c in cases if c["op"] == "cmd" and not cmd_in_model(c))
+    cmds = [(i, c) for i, c in enumerate(cases) if c["op"] == "cmd"]
+    d["cmd:nontrivial"] = sum(1 for i, c in cmds if i in nt)
+    # escape hatches, with their counts
+    d["cmd:outside-modelled-quote-class(bytes>=128 quoted; texts not compared, exact secrets still judged)"] = \
+        sum(1 for _, c in cmds if not cmd_in_model(c))
+    d["cmd:some-secret-composite-without-exact-text(clean/withheld oracles skipped)"] = \
+        sum(1 for _, c in cmds if not cmd_secrets_exact(c))
+    d["cmd:compared-since-v2(quoting rewrites a member: was outside the v1 class)"] = \
+        sum(1 for _, c in cmds if cmd_in_model(c) and not cmd_in_model(c, _simple))
+    runs = [c for c in cases if c["op"] == "run"]
+    d["run:streams-above-%d-bytes" % MODEL_CUTOFF_V1] = sum(1 for c in runs if sum(len(x) // 2 for x in c["chunks"]) > MODEL_CUTOFF_V1)
+    d["run:cases-with-a-filtered-secret-spellable-with-placeholder-text(judged between placeholder copies)"] = \
+        sum(1 for c in runs if any(len(x) >= 6 and _clash(bytes.fromhex(x)) for x in c["secrets"]))
+    d["run:cases-with-a-bracketed-secret-judged-plainly(excluded by v1)"] = \
+        sum(1 for c in runs if any(len(x) >= 6 and (b"[" in bytes.fromhex(x) or b"]" in bytes.fromhex(x)) and not _clash(bytes.fromhex(x))
+                                   for x in c["secrets"]))
     return d
 
 
